@@ -55,3 +55,35 @@ func HashFiles(absolutePackagePath string, fileList []string) (string, error) {
 	// Return the combined hash as a hexadecimal string.
 	return combinedHasher.SumString(), nil
 }
+
+// HashInputFiles computes a combined hash over the contents of multiple files
+// relative to packagePath. Every file is hashed on its own and its path and
+// digest are fed into the combined hash, so the result depends on which bytes
+// belong to which file (HashFiles hashes the concatenation of all contents, for
+// which moving bytes from the end of one file to the start of the next goes
+// unnoticed).
+func HashInputFiles(absolutePackagePath string, fileList []string) (string, error) {
+	combinedHasher := GetHasher()
+
+	// Ensure consistent ordering.
+	sortedFiles := append([]string{}, fileList...)
+	sort.Strings(sortedFiles)
+
+	for _, file := range sortedFiles {
+		fullPath := filepath.Join(absolutePackagePath, file)
+		fileHash, err := HashFile(fullPath)
+		if err != nil {
+			if os.IsNotExist(err) {
+				// NOTE: If a file does not exist in the package, we skip it.
+				continue
+			}
+			return "", fmt.Errorf("failed hashing input file: %w", err)
+		}
+
+		if _, err := combinedHasher.WriteString(fmt.Sprintf("%d:%s=%s;", len(file), file, fileHash)); err != nil {
+			return "", err
+		}
+	}
+
+	return combinedHasher.SumString(), nil
+}
